@@ -1,5 +1,5 @@
 (** C16 — queries report exactly what is stored and what is purchasable. *)
-From FM Require Import QueryFacts.
+From FM Require Import QueryFacts Listed.
 
 (** Owner queries: every page number 1 .. 255 is answered (never fails), page p is entries
     20(p-1) .. 20p-1 of the owner's records in id order, the 255 pages laid end to end are exactly
@@ -51,6 +51,31 @@ Theorem C16_listed_is_purchasable : forall s k l now_ns,
   lstatus l = FinalizedReady /\ claimant l = None /\ (forall x, exp l = Some x -> now_ns <= x).
 Proof. exact listed_is_purchasable. Qed.
 Print Assumptions C16_listed_is_purchasable.
+
+(** ... and, joined with C02's acceptance rule: whatever the market query (any page) returns at
+    the world's block time — that very instant included at which the listing expires — is
+    accepted by [BuyListing] in that same state from any buyer the reservation allows who holds a
+    bucket with exactly the asked assets (royalties within the cap); likewise for the whitelist
+    query and the buyer it was asked for. *)
+Theorem C16_listed_is_accepted_now : forall w p ls l a b_id b,
+  Inv (market w) -> reg_link w ->
+  get_listings_for_market (market w) (wnow w) p = Ok ls -> In l ls ->
+  find_key (a, b_id) (buckets (market w)) = Some b -> lid l < U64 -> b_id < U64 ->
+  (wl l = None \/ wl l = Some a) -> same_assets (funds b) (ask l) ->
+  due w (colls_of (for_sale l)) <= 5000 -> due w (colls_of (funds b)) <= 5000 ->
+  is_ok (execute (oracle_of w) (env_of w) a [] (BuyListing (lid l) b_id) (market w)) = true.
+Proof. exact listed_is_accepted. Qed.
+Print Assumptions C16_listed_is_accepted_now.
+
+Theorem C16_whitelisted_is_accepted_now : forall w ls l a b_id b,
+  Inv (market w) -> reg_link w -> valid_addr a = true ->
+  get_whitelisted (market w) (wnow w) a = Ok ls -> In l ls ->
+  find_key (a, b_id) (buckets (market w)) = Some b -> lid l < U64 -> b_id < U64 ->
+  same_assets (funds b) (ask l) ->
+  due w (colls_of (for_sale l)) <= 5000 -> due w (colls_of (funds b)) <= 5000 ->
+  is_ok (execute (oracle_of w) (env_of w) a [] (BuyListing (lid l) b_id) (market w)) = true.
+Proof. exact whitelisted_is_accepted. Qed.
+Print Assumptions C16_whitelisted_is_accepted_now.
 
 (** The fee query reports the denomination in force (the one the next purchase is charged in,
     C13) and a next-change time up to which every cycle attempt is refused and after which any
